@@ -32,3 +32,18 @@ def lookup_contract_scenarios():
 def scn_lookup_contract(c, which, args):
     from props import C04
     return getattr(C04, which)(c, **args)
+
+
+def mesh_mask_contract_scenarios():
+    """ugrid.mask_from_face_indexes (the mesh clip mask that C08 / C09 take as given, verified by C07): its scenarios, re-run where it is used"""
+    from props import C07
+    out = []
+    for sc in C07.scenarios('quick'):
+        if sc['fn'] == 'scn_mesh_mask':
+            out.append({'name': 'contract ' + sc['name'], 'fn': 'scn_mesh_mask_contract', 'kwargs': {'args': sc['kwargs']}})
+    return out
+
+
+def scn_mesh_mask_contract(c, args):
+    from props import C07
+    return C07.scn_mesh_mask(c, **args)
